@@ -112,6 +112,7 @@ def monitor(script):
     relearn = False
     accepted_at_save = {0}
     accepted_ever = {0}
+    blocks = {}            # header id -> number of transactions of the block it commits to
     deep_marks = set()     # marks of headers at/below the in-memory window: known to be ineffective
     min_depth = 10000
 
@@ -303,6 +304,8 @@ def monitor(script):
             main_net = a.get("net") == "main"
         elif verb == "hdr":
             defs[int(a["id"])] = (int(a["prev"]), int(a["bits"]), int(a["time"]))
+            if a.get("blk") == "1":
+                blocks[int(a["id"])] = int(a.get("mr", 0))
         elif verb == "latest":
             latest_mode = True
             i = int(a["id"])
@@ -453,6 +456,44 @@ def monitor(script):
                 # extra entries, so the bound on best-chain hashes is only exact without forks
                 if linear and len(onbest) > max(mx, 1):
                     m.hit("C19:too-many", f"`{op}` has {len(onbest)} best-chain hashes, more than max={mx}")
+        elif verb == "proof" and "r" in o:
+            bid, n, ti = int(a["block"]), int(a["n"]), int(a["tx"])
+            mut = a.get("mut", "none")
+            form = a.get("form", "header")
+            target = bid
+            if mut.startswith("other:"):
+                target = int(mut[6:])
+            # merkle path shape of leaf ti in a tree of n leaves: number of sibling hashes
+            plen, width, pos = 0, n, ti
+            while width > 1:
+                if not (pos == width - 1 and width % 2 == 1):
+                    plen += 1
+                pos //= 2
+                width = (width + 1) // 2
+            tampered = (mut in ("txid", "unknownhash", "noblock")
+                        or (mut.startswith("path:") and int(mut[5:]) < plen)
+                        or (mut.startswith("index:") and int(mut[6:]) != 0)
+                        or (mut.startswith("other:") and not (target in defs and defs.get(target) is not None and
+                                                                blocks.get(target) == blocks.get(bid) and target == bid)))
+            committed = blocks.get(bid) == n
+            if o["r"] == "ok":
+                if tampered or not committed:
+                    m.hit("C18:accepted-tampered", f"`{op}` verified although the proof was altered ({mut}) or the header does not commit to that block")
+                elif target not in accepted and target not in dropped and not relearn:
+                    m.hit("C18:accepted-unknown-header", f"`{op}` verified against header {target}, which the repository never accepted")
+                else:
+                    th = height(target)
+                    if th is not None and int(o["h"]) != th:
+                        m.hit("C18:wrong-height", f"`{op}` reports height {o['h']}, true height {th}")
+                    if chain_valid and th is not None:
+                        onbest = th < len(chain) and chain[th] == target
+                        if (o["longest"] == "1") != onbest:
+                            m.hit("C18:wrong-flag", f"`{op}` reports in-most-work-chain={o['longest']} but header {target} on best chain = {onbest}")
+            else:
+                if (not tampered and committed and target in accepted and chain_valid and not relearn
+                        and height(target) is not None and height(target) < len(chain) and chain[height(target)] == target
+                        and form == "header"):
+                    m.hit("C18:rejected-honest", f"`{op}` is an honest proof for a best-chain header but was answered {o['r']}")
         elif verb == "vloc" and "loc" in o:
             ids = parse_list(o["loc"])
             if len(set(ids)) != len(ids):
